@@ -845,6 +845,74 @@ def exhaustive_helpers(chk):
     return n
 
 
+def resolve_stream(chk, n):
+    """ONE model object solved several times under different objectives, no row added in between (solve -> read back -> setObjective ->
+    solve -> read back ... -> solutions()): every read-back is the optimum of the objective in force, the product variable is the AND
+    of its factors at every point read, and an enumeration started after earlier solves starts from the current optimum"""
+    from aldy import lpinterface
+    rng = chk.rng
+    for k in range(n):
+        nb = rng.randint(2, 4)
+        pair = rng.sample(range(nb), 2)
+        card = rng.choice([None, ("le", rng.randint(1, nb)), ("ge", 1)])
+        objs = []
+        for _ in range(rng.choice([2, 3, 4])):
+            w = [F(rng.randint(-30, 30), 10) for _ in range(nb)]
+            objs.append((w, F(rng.randint(-30, 30), 10), rng.choice(["min", "max"])))
+        case = {"binaries": nb, "product_of": pair, "cardinality": card,
+                "objectives": [[[str(x) for x in w], str(wr), sense] for w, wr, sense in objs]}
+        m = lpinterface.model("r", "cbc")
+        B = [m.addVar(vtype="B", name=f"B_{i}") for i in range(nb)]
+        R = m.addVar(vtype="B", name="R")
+        m.prod(R, [B[i] for i in pair])
+        if card:
+            e = m.quicksum(B)
+            m.addConstr(e <= card[1]) if card[0] == "le" else m.addConstr(e >= card[1])
+        feas = [bits for bits in itertools.product((0, 1), repeat=nb)
+                if not card or (sum(bits) <= card[1] if card[0] == "le" else sum(bits) >= card[1])]
+        val = lambda bits, w, wr: sum(x * b for x, b in zip(w, bits)) + wr * (bits[pair[0]] & bits[pair[1]])
+        chk.case("re-solve", case, nontrivial=len(feas) >= 2, sample=case)
+        chk.count("re-solve", f"objectives={len(objs)}")
+        bad = None
+        for step, (w, wr, sense) in enumerate(objs):
+            m.setObjective(m.quicksum(float(x) * b for x, b in zip(w, B)) + float(wr) * R, method=sense)
+            try:
+                st, obj = m.solve()
+            except lpinterface.NoSolutionsError:
+                st, obj = "infeasible", None
+            best = (min if sense == "min" else max)(val(bits, w, wr) for bits in feas) if feas else None
+            if best is None or st != "optimal":
+                if (best is None) != (st != "optimal"):
+                    bad = (step, f"status {st}, exhaustive optimum {best}")
+                break
+            got = [m.getValue(b) for b in B]
+            r = m.getValue(R)
+            bits = tuple(int(bool(x)) for x in got)
+            if any(type(x) is not bool for x in got + [r]):
+                bad = (step, f"read-back of a binary is not a bool: {got + [r]}")
+            elif bits not in feas or r != bool(bits[pair[0]] & bits[pair[1]]):
+                bad = (step, f"point read back {bits}, R={r} is not a feasible point (R must be the AND of its factors)")
+            elif not close(val(bits, w, wr), obj) or not close(obj, best):
+                bad = (step, f"reported {obj!r}, the point read back evaluates to {float(val(bits, w, wr))!r}, the optimum is {float(best)!r}")
+            if bad:
+                break
+        if not bad and feas and objs[-1][2] == "min":
+            w, wr, _ = objs[-1]
+            best = min(val(bits, w, wr) for bits in feas)
+            ys = list(itertools.islice(m.solutions(0), 3))
+            if not ys:
+                bad = (len(objs), "solutions() after earlier solves yields nothing")
+            else:
+                names = set(ys[0][2])
+                bits = tuple(int(f"B_{i}" in names) for i in range(nb))
+                if bits not in feas or not close(val(bits, w, wr), best) or not close(ys[0][1], best) or \
+                        ("R" in names) != bool(bits[pair[0]] & bits[pair[1]]):
+                    bad = (len(objs), f"first yield of solutions() after earlier solves: {ys[0][1]!r} {sorted(names)}, optimum {float(best)!r}")
+        if bad:
+            chk.fail("first-optimal", {"stream": "re-solve", "step": "enumeration" if bad[0] == len(objs) else "solve"}, case,
+                     "every solve of one model object returns the optimum of the objective in force and reads back that point", f"step {bad[0]}: {bad[1]}")
+
+
 # ------------------------------------------------------------------------------------------------------------------
 # evaluation of a batch of enumeration cases
 # ------------------------------------------------------------------------------------------------------------------
@@ -1171,6 +1239,7 @@ def run(chk):
     t1 = time.time()
     # --- exhaustive helper values through real CBC
     exhaustive_helpers(chk)
+    resolve_stream(chk, 60 if q else 600)
     # --- structural tie of the helpers
     hcases = [gen_helper_case(rng) for _ in range(150 if q else 1500)]
     hcases += [{"kind": "prod", "ts": []}, {"kind": "prod", "ts": [1]}, {"kind": "prod", "ts": [2, 2]}]
